@@ -2,7 +2,11 @@
 
 package font
 
-import "reflect"
+import (
+	"reflect"
+
+	"github.com/go-text/typesetting/font/opentype/tables"
+)
 
 // Verification hook for property C09, table synthesis pass (add-only, compiled only with the build tag `verif`).
 
@@ -57,3 +61,6 @@ func (f *Font) VerifLoadedTables() []string {
 	add("GPOS", f.GPOS.Lookups)
 	return out
 }
+
+// VerifKernxFromKern converts a parsed 'kern' table like NewFont does.
+func VerifKernxFromKern(k tables.Kern) Kernx { return newKernxFromKern(k) }
